@@ -30,6 +30,7 @@ class Analysis:
         self._no_generous = set()
         from . import rules
         rules.register_clock_reads(self.p)
+        rules.TYPES = self.te
 
     def _share(self, other: Interp):
         other._summaries = self.it._summaries
